@@ -273,3 +273,29 @@ reg('C11', module='c11', level='exploration',
                        'ack_models_forward': 5000},
              'thorough': {'cnf_compared': 100000, 'ack_compared': 10000,
                           'shapes_checked': 100000}})
+
+reg('C14', module='c14', level='exploration',
+    technique=('runtime monitoring: twin environments - the same query after '
+               'a random API history vs in a fresh environment, compared by '
+               'an AC / fresh-name canonical key; re-query of earlier '
+               'answers (offline history check)'),
+    rule=('per case: a target formula, 3-8 related formulas sharing '
+          'sub-DAGs, a history of 20-120 random calls (all analyses, '
+          'transformations, printers, parsers, every constant spelling) '
+          'followed by one of 28 queries; plus all ordered pairs of constant '
+          'spellings; distinct = (query, target key)'),
+    level_text=('results are turned into environment-free values and must '
+                'be equal between the two environments; repeated calls must '
+                'return the same object; answers recorded during the history '
+                'are re-queried after later calls. Held on the histories '
+                'observed.'),
+    level_note='trusts vf/keys.py (canonical keys)',
+    assumptions=['printed strings of formulas containing array values with '
+                 'several assignments are not compared (their order follows '
+                 'object addresses)'],
+    require={'quick': {'twin_comparisons': 4000, 'history_calls': 200000,
+                       'requeried_answers': 50000,
+                       'constant_sequence_checks': 100},
+             'thorough': {'twin_comparisons': 20000,
+                          'history_calls': 1000000,
+                          'requeried_answers': 200000}})
